@@ -75,6 +75,13 @@ TEMPLATES = [
     # above the 4096-byte limit that applies to literals of other commands
     ('auth', [b'APPEND ', S(b'Sent'), b' ',
               S(b'A: b\r\n\r\n' + b'0123456789' * 500 + b'\r\n')]),
+    # string arguments around the 4096-byte limit of the other commands:
+    # whatever the limit is, it cannot depend on the spelling
+    ('auth', [b'CREATE ', S(b'n' * 4096)]),
+    ('auth', [b'CREATE ', S(b'n' * 4097)]),
+    ('auth', [b'STATUS ', S(b'n' * 5000), b' (MESSAGES)']),
+    ('nonauth', [b'LOGIN ', S(b'demouser'), b' ', S(b'p' * 5000)]),
+    ('selected', [b'SEARCH SUBJECT ', S(b's' * 4097)]),
     ('selected', [b'COPY 1 ', S(b'Sent')]),
     ('selected', [b'MOVE 2 ', S(b'Trash2')]),
     ('selected', [b'SEARCH SUBJECT ', S(b'question')]),
